@@ -62,6 +62,10 @@ pub struct TreeCfg {
     /// lz4 for data blocks, index blocks and blobs (default: none, as the pinned suite is built)
     #[serde(default)]
     pub lz4: bool,
+    /// generated key universe (n keys "{i:08}" padded with 'x' to len bytes) instead of `keys`:
+    /// keeps scenarios with megabytes of keys out of the replay files
+    #[serde(default)]
+    pub gen_keys: Option<(u32, u32)>,
 }
 
 impl TreeCfg {
@@ -92,6 +96,7 @@ impl TreeCfg {
                     ratio: 10.0,
                 },
             ],
+            gen_keys: None,
             filter_verdicts: None,
             mid_snapshot: false,
             lz4: false,
@@ -200,7 +205,16 @@ impl Driver {
         Self::new_shared(dir, cfg, Shared::default())
     }
 
-    pub fn new_shared(dir: &Path, cfg: TreeCfg, shared: Shared) -> Result<Self, String> {
+    pub fn new_shared(dir: &Path, mut cfg: TreeCfg, shared: Shared) -> Result<Self, String> {
+        if let (true, Some((n, len))) = (cfg.keys.is_empty(), cfg.gen_keys) {
+            cfg.keys = (0..n)
+                .map(|i| {
+                    let mut k = format!("{i:08}").into_bytes();
+                    k.resize((len as usize).max(8), b'x');
+                    k
+                })
+                .collect();
+        }
         let filter_log = cfg
             .filter_verdicts
             .as_ref()
@@ -705,6 +719,34 @@ impl Driver {
                         info.ingest_seqno = Some(g);
                         for (key, kind, v) in vals {
                             self.model.push(&key, g, kind, &v, Loc::Persisted);
+                        }
+                    }
+                }
+                Op::IngestRange { lo, hi } => {
+                    let mut vals = vec![];
+                    {
+                        let mut ing = self
+                            .tree
+                            .as_ref()
+                            .expect("tree open")
+                            .ingestion()
+                            .map_err(|e| format!("ingestion(): {e:?}"))?;
+                        for k in *lo..*hi {
+                            self.opidx += 1;
+                            let key = self.cfg.keys[k as usize].clone();
+                            let v = big_value(b'i', self.opidx);
+                            ing.write(key.clone(), v.clone()).map_err(|e| format!("ingest write: {e:?}"))?;
+                            vals.push((key, v));
+                        }
+                        ing.finish().map_err(|e| format!("ingest finish: {e:?}"))?;
+                    }
+                    self.model.rotate();
+                    self.model.flush_sealed();
+                    if hi > lo {
+                        let g = self.seqno.get() - 1;
+                        info.ingest_seqno = Some(g);
+                        for (key, v) in vals {
+                            self.model.push(&key, g, Kind::Put, &v, Loc::Persisted);
                         }
                     }
                 }
